@@ -25,8 +25,9 @@ THEOREMS = ['Props.C13.' + t for t in [
     'header_ok', 'incon_write_fixpoint_partial',
     'real_field_shapes', 'variable_full_precision_iff', 'field15_full_precision_iff', 'fits20_13_of_magnitude', 'fits15_9_of_magnitude',
     'no_precision_lost_iff', 'incon_write_fixpoint_values_partial', 'incon_write_fixpoint_untimed_partial',
-    'header_types', 'written_lines_clean', 'read_any_line_ends_partial', 'write_fixpoint_any_line_ends_partial']]
-LEVEL_TEXT = ('Proof: 34 Lean theorems (no sorry) about the executable model of t2incon.read/write. Core: incon_roundtrip_partial - for EVERY '
+    'header_types', 'written_lines_clean', 'read_any_line_ends_partial', 'write_fixpoint_any_line_ends_partial',
+    'canonical_name_has_5', 'blockWF_of_canonical', 'excluded_plus_name']]
+LEVEL_TEXT = ('Proof: 37 Lean theorems (no sorry) about the executable model of t2incon.read/write. Core: incon_roundtrip_partial - for EVERY '
               'well-formed initial-conditions object (any number of blocks with distinct canonical valid names, n >= 1 real variables per block '
               'with num_variables = n or n <= 4, porosity / nseq-nadd / permeability triples present or absent per block, TOUGH2 or TOUGHREACT, '
               'timing present or absent, reset on or off, either conversion dictionary) whose write succeeds, a fresh read of the written lines '
@@ -49,7 +50,8 @@ LEVEL_TEXT = ('Proof: 34 Lean theorems (no sorry) about the executable model of 
               'names accepted by valid_blockname consist of characters of the generated tables, decide: none is a line end; header_types: decide over the table); '
               'read_any_line_ends_partial - hence the text of the written file splits (splitLines, universal newlines) into exactly the written lines, also after replacing every LF '
               'by CRLF or by CR, and read returns the same object for all three texts (partial only through InconWF); write_fixpoint_any_line_ends_partial - the second generation '
-              'from the CRLF text is the original lines. NOT proved: that splitLines is what Python text mode does (tied by the correspondence); HeaderStable as a value class; '
+              'from the CRLF text is the original lines. Well-formedness: canonical_name_has_5 / blockWF_of_canonical - the 5-character hypothesis follows from Canonical (BlockWF without it); '
+              'excluded_plus_name - the no-+++ hypothesis is NOT redundant: the valid canonical name "+++ 1" is written but ends the block loop on read (model witness; same on the real code, not yet replayed by the harness). NOT proved: that splitLines is what Python text mode does (tied by the correspondence); HeaderStable as a value class; '
               'that write succeeds (hypothesis of all theorems: an integer wider than its 5d/6d/3d field raises) is not derived from bounds on the values.')
 LEVEL_NOTE = ('Tie: Gen/Specs.lean + Gen/Conventions.lean regenerated every run; compiled model vs real write (bytes), read (canonical dump, incl. '
               'hand-made simulator-style files with CRLF/D exponents/short lines and the 7 shipped files) and second-generation write (bytes, '
